@@ -70,6 +70,9 @@ type CallRecord struct {
 // returns the execution whose effects are then committed. Used by the determinism monitor (C16).
 var ExecHook func(e *Env, run func() (*CallRecord, *native.NativeService)) (*CallRecord, *native.NativeService)
 
+// BeforeCall, when set, is told which contract method is about to run.
+var BeforeCall func(contract common.Address, method string)
+
 // Observer, when set, sees every finished call (after commit / discard). Used by cross-cutting
 // monitors (C17).
 var Observer func(e *Env, rec *CallRecord)
@@ -165,6 +168,9 @@ func (e *Env) CallTx(tx *types.Transaction, contract common.Address, method stri
 			rec.CrossHashes = svc.GetCrossHashes()
 		}
 		return rec, svc
+	}
+	if BeforeCall != nil {
+		BeforeCall(contract, method)
 	}
 	var rec *CallRecord
 	var svc *native.NativeService
